@@ -65,6 +65,13 @@ def run(ctx):
                     M = u
                 else:
                     u = rand_unitary(nr, norb, kind)
+                    # every other call hands the helper one and the same array object, overwritten in place since the
+                    # previous call (a propagation loop reusing a buffer)
+                    if case % 2 == 0:
+                        buf = ctx.__dict__.setdefault("_c17_buffers", {}).setdefault(norb, numpy.zeros((norb, norb), dtype=numpy.complex128))
+                        numpy.copyto(buf, u)
+                        u = buf
+                        desc["reused_buffer"] = True
                     full = numpy.eye(2 * norb, dtype=numpy.complex128)
                     if which in ("givens", "givens-alpha"):
                         full[:norb, :norb] = u
